@@ -103,7 +103,9 @@ class Gen:
             if op[0] == 'refresh':
                 continue
             idle = op[0] in ('restart', 'node_start') or op == ('ready', 0)
-            if idle:
+            if idle or op[0] == 'tomb':
+                # (tomb: the monitor names the cleanup link after the
+                # instance; clean the previous generation's first)
                 out += [('drain',), ('clean_all',)]
             if op[0] == 'deliver':
                 op = ('drain',)
